@@ -119,7 +119,7 @@ fn expand_base(b: &Base) -> Vec<Scenario> {
     out
 }
 
-fn sampled(rng: &mut Rng) -> Scenario {
+pub(crate) fn sampled(rng: &mut Rng) -> Scenario {
     let m = gen_method(rng);
     let (mut sc, p) = gen_admissible(rng, m, ProbClass::Smooth, Entry::High, 20_000, &mut |rng, sc| {
         if sc.method != Meth::RK4 && rng.bool(0.2) {
